@@ -20,7 +20,8 @@ from vf.hlib import B, HarnessGap, NoTracing, cube, journal, pick, violation
 LINK = cube("link", "copy")
 DELETE = bool(cube("delete", True))
 FORM = cube("form", "explicit")
-TGT = {"a": b"TA\n", "a/b": b"TB\r\n", "a/b/c": b"", "d": b"TD"}
+TGT = {"a": b"TA\n", "a/b": b"TB\r\n", "a/b/c": b"", "d": b"TD", "a/b/c/f": b"deep"}
+DEEP = bool(cube("deep", False))  # the target's a/b/c is a directory holding f: a/b then holds no file of its own
 OTHER = {"a": b"user-a", "a/b": b"user-b", "a/b/c": b"user-c", "d": b"user-d"}
 
 
@@ -72,6 +73,9 @@ def h_converge(pa: int, pb: int, pc: int, pd: int, ta: int, tb: int, tc: int, td
     """
     prior = _shape(*_kinds_prior(pa, pb, pc, pd))
     target = _shape(*_kinds(ta, tb, tc, td, cube("ta", None)))
+    if DEEP and target.get("a/b/c") == "file":
+        target["a/b/c"] = "dir"
+        target["a/b/c/f"] = "file"
     same = {k: B(v) for k, v in zip(("a", "a/b", "a/b/c", "d"), (sa, sb, sc, sd)) if prior.get(k) == "file"}
     execb = {k: B(v) for k, v in (("a", xa), ("d", xd)) if target.get(k) == "file" and (k == "d" or cube("unavail", False))}
     unavail = {k: B(v) for k, v in (("a/b", ub), ("d", ud)) if target.get(k) == "file"} if cube("unavail", False) else {}
